@@ -816,7 +816,7 @@ func init() {
 		},
 		Run: vRunAbaco,
 		Meta: vMeta{Level: "exploration",
-			Rule: "case = script (1-4 channel groups on 1-3 producers, 1-8 channels each, 1-32 frames per packet, int16/int32 payloads, per-group sequence-number bases, per-group loss pattern none/isolated/bursts/long run/first packets/dense, per-tick per-group batching incl. empty ticks and lagging groups), executed 3 (quick) or 6 (thorough) times because the reader iterates a Go map; the real Start..CoreLoop pipeline runs against scripted PacketProducers and every block handed to ProcessSegments is compared with the per-channel reference stream (delivered samples, frames-per-packet filler per lost packet), equal lengths, contiguous frame numbers and the dropped-frame total; non-trivial = every executed script",
+			Rule: "case = script (1-4 channel groups on 1-3 producers, 1-8 channels each, 1-32 frames per packet, int16/int32 payloads, per-group sequence-number bases, per-group loss pattern none/isolated/bursts/long run/first packets/dense, per-tick per-group batching incl. empty ticks and lagging groups), executed 3 (quick) or 6 (thorough) times because the reader iterates a Go map; the real Start..CoreLoop pipeline runs against scripted PacketProducers and every block handed to ProcessSegments is compared with the per-channel reference stream (delivered samples, frames-per-packet filler per lost packet), equal lengths, contiguous frame numbers and the dropped-frame total; non-trivial = every executed script; additions: external-trigger packets mixed into the stream (1 case in 4), a slow consumer (1 in 3), and a quiescence phase at the end (no more packets; after six empty ticks nothing complete may be held back)",
 			Assumptions: []string{"all groups use the same frames per packet (the code panics otherwise and says so)", "packets carry timestamps (the sample rate is derived from them)", "the run continues the sequence numbers seen while sampling",
 				"filler values are not constrained, only their count", "dropped frames are counted per group (two groups losing one packet each = 2 x frames per packet)"},
 			Guards: map[string]map[string]int{
